@@ -463,3 +463,108 @@ def run_parallel(items, fn, workers=12):
     for t in ts:
         t.join()
     return out
+
+
+# ------------------------------------------------------------------ fake upstream proxies (behaviour chosen by the requested host name)
+
+def _echo_loop(c):
+    c.settimeout(30)
+    try:
+        while True:
+            d = c.recv(65536)
+            if not d:
+                break
+            c.sendall(d)
+    except OSError:
+        pass
+
+
+def fake_http_proxy(c, a, rec):
+    """ok.test -> 200 then echo; no.test -> 403 with body; close.test -> close; garbage.test -> garbage; slow.test -> never answers"""
+    head, rest = recv_head(c, 10)
+    rec['rx'] += head
+    try:
+        target = head.split(b' ')[1].decode()
+    except Exception:
+        return
+    host = target.rsplit(':', 1)[0]
+    rec['target'] = target
+    if host == 'ok.test' or host.startswith('127.') or host.startswith('['):
+        c.sendall(b'HTTP/1.1 200 OK\r\n\r\n')
+        if rest:
+            c.sendall(rest)
+        _echo_loop(c)
+    elif host == 'no.test':
+        c.sendall(b'HTTP/1.1 403 Forbidden\r\nContent-Length: 2\r\n\r\nno')
+    elif host == 'garbage.test':
+        c.sendall(b'\x00\x01\x02 garbage\r\n\r\n')
+    elif host == 'slow.test':
+        time.sleep(30)
+    # close.test: just return (close)
+
+
+def fake_socks_proxy(c, a, rec):
+    v = recv_exact(c, 1, 10)
+    if v == b'\x05':
+        n = recv_exact(c, 1, 5)
+        recv_exact(c, n[0] if n else 0, 5)
+        # peek the behaviour later from the request; greeting reply first
+        c.sendall(b'\x05\x00')
+        h = recv_exact(c, 4, 5)
+        if len(h) < 4:
+            return
+        host = ''
+        if h[3] == 1:
+            host = socket.inet_ntoa(recv_exact(c, 4, 5))
+        elif h[3] == 4:
+            host = socket.inet_ntop(socket.AF_INET6, recv_exact(c, 16, 5))
+        elif h[3] == 3:
+            l = recv_exact(c, 1, 5)
+            host = recv_exact(c, l[0], 5).decode('utf8', 'replace')
+        port = struct.unpack('>H', recv_exact(c, 2, 5))[0]
+        rec['target'] = f'{host}:{port}'
+        rec['cmd'] = h[1]
+        if host == 'no.test':
+            c.sendall(b'\x05\x05\x00\x01\0\0\0\0\0\0')
+        elif host == 'garbage.test':
+            c.sendall(b'\x09\x09\x09')
+        elif host == 'close.test':
+            return
+        elif host == 'slow.test':
+            time.sleep(30)
+        else:
+            c.sendall(b'\x05\x00\x00\x01\0\0\0\0\0\0')
+            _echo_loop(c)
+    elif v == b'\x04':
+        h = recv_exact(c, 7, 5)
+        if len(h) < 7:
+            return
+        port = struct.unpack('>H', h[1:3])[0]
+        ip = h[3:7]
+        buf = b''
+        while not buf.endswith(b'\0'):
+            d = recv_exact(c, 1, 5)
+            if not d:
+                return
+            buf += d
+        host = socket.inet_ntoa(ip)
+        if ip[:3] == b'\0\0\0' and ip[3] != 0:
+            buf = b''
+            while not buf.endswith(b'\0'):
+                d = recv_exact(c, 1, 5)
+                if not d:
+                    return
+                buf += d
+            host = buf[:-1].decode('utf8', 'replace')
+        rec['target'] = f'{host}:{port}'
+        if host == 'no.test':
+            c.sendall(b'\x00\x5b\0\0\0\0\0\0')
+        elif host == 'garbage.test':
+            c.sendall(b'\x09\x09\x09')
+        elif host == 'close.test':
+            return
+        elif host == 'slow.test':
+            time.sleep(30)
+        else:
+            c.sendall(b'\x00\x5a\0\0\0\0\0\0')
+            _echo_loop(c)
